@@ -18,6 +18,7 @@ pub fn main() {
         "faults" => crate::e2e::faults::run(&args),
         "tlsworld" => crate::e2e::tlsworld::run(&args),
         "sniff" => crate::sniff::run(&args),
+        "panics" => crate::e2e::panics::run(&args),
         "iolab" => crate::iolab::run(&args),
         "layers" if args.replay.is_some() => crate::reqsweep::replay(&args, "layers"),
         "sni" if args.replay.is_some() => crate::reqsweep::replay(&args, "sni"),
